@@ -206,7 +206,7 @@ fn encoder_walk(rng: &mut Rng, out: &mut CaseOut) {
     };
     let mut count = 0usize;
     let mut distinct_errs: BTreeSet<&'static str> = BTreeSet::new();
-    let steps = rng.range(10, 40);
+    let steps = rng.range(10, if crate::thorough() { 200 } else { 40 });
     for _ in 0..steps {
         let before = out.violations.len();
         match rng.below(10) {
@@ -310,7 +310,7 @@ fn decoder_walk(rng: &mut Rng, out: &mut CaseOut) {
     };
     let mut got_o: BTreeSet<usize> = BTreeSet::new();
     let mut got_r: BTreeSet<usize> = BTreeSet::new();
-    let steps = rng.range(10, 40);
+    let steps = rng.range(10, if crate::thorough() { 200 } else { 40 });
     // the working-space position bases (used only to aim wrap-around indexes)
     let base = |k: usize, r: usize| k.next_power_of_two().max(r.next_power_of_two());
     for _ in 0..steps {
